@@ -7,8 +7,24 @@ RefDowngradeSet (DRIFT only).  MC_Color (M1) shows the transcription satisfies t
 
 Python never compares a result with an expectation: the only comparisons made here are `is`
 (object identity, an observation) and dictionary / run-length grouping of equal observations
-(lossless; TLC re-expands them)."""
+(lossless; TLC re-expands them).
+
+Generator dimensions (audit 2).  A point is an item [spec, order, form]:
+  spec   how the source colour is built: ("rgb", r,g,b) Color.from_rgb, ("trip", r,g,b) Color.from_triplet,
+         ("idx", n) Color.from_ansi, ("name", text) Color.parse (every name of ANSI_COLOR_NAMES, color(n),
+         #rrggbb, rgb(r,g,b), default, case / white-space variants), ("default",) Color.default(),
+         ("raw", TYPE, n | r,g,b) the Color tuple built directly (WINDOWS typed colours, EIGHT_BIT typed
+         colours below 16, ...), ("chain", base spec, s1, ...) the RESULT of downgrading the base colour to
+         s1 (then s2 ...) after the base itself was asked for every system - an already downgraded colour
+         that is then converted to every system again (third systems, names inherited from the original);
+  order  in which of the 24 orders the four target systems are asked for this point (the lru_caches of
+         downgrade / Palette.match / get_ansi_codes see the same colour asked for several systems in varying
+         order; the repeat stratum asks for one colour several times in one process);
+  form   the call form of get_ansi_codes: keyword (foreground=True/False), positional (True/False), or as
+         rich.style does it: get_ansi_codes() for the foreground and get_ansi_codes(foreground=False).
+Order and form are choices of history only; TLC judges every (point, target) the same way."""
 import hashlib
+import itertools
 import json
 import multiprocessing
 import os
@@ -16,6 +32,7 @@ import re
 import resource
 import sys
 import time
+import zlib
 
 from engine import tlc
 from engine.harness import Check
@@ -87,11 +104,53 @@ def runs(values):
 
 def intended(spec):
     """projection of the colour a source spec asks for (used only if the constructor itself raises)."""
-    if spec[0] == "rgb":
+    if spec[0] in ("rgb", "trip"):
         return dict(kind="rgb", n=ABSENT, r=spec[1], g=spec[2], b=spec[3])
     if spec[0] == "idx":
         return dict(kind="standard" if spec[1] < 16 else "eight", n=spec[1], r=ABSENT, g=ABSENT, b=ABSENT)
+    if spec[0] == "raw" and spec[1] in KIND and len(spec) == 3:
+        return dict(kind=KIND[spec[1]], n=spec[2], r=ABSENT, g=ABSENT, b=ABSENT)
+    if spec[0] == "raw" and spec[1] == "TRUECOLOR":
+        return dict(kind="rgb", n=ABSENT, r=spec[2], g=spec[3], b=spec[4])
     return dict(DUMMY)
+
+
+PERMS = list(itertools.permutations(range(4)))
+
+
+def plan(spec):
+    """default (order, form) of a spec: a fixed function of the spec, so a replay asks in the same order."""
+    if spec[0] == "rgb":
+        return (spec[1] * 5 + spec[2] * 3 + spec[3]) % 24, (spec[1] + spec[2] + spec[3]) % 3
+    h = zlib.crc32(repr(detuple(spec)).encode())
+    return h % 24, (h // 24) % 3
+
+
+def detuple(x):
+    return [detuple(y) for y in x] if isinstance(x, (list, tuple)) else x
+
+
+def entuple(x):
+    return tuple(entuple(y) for y in x) if isinstance(x, (list, tuple)) else x
+
+
+def item(spec, order=None, form=None):
+    o, f = plan(spec)
+    return (spec, o if order is None else order, f if form is None else form)
+
+
+def route(spec):
+    """shape of the source for signatures (never raw data)."""
+    if spec[0] == "raw":
+        return "raw-" + str(spec[1]).lower()
+    if spec[0] == "chain":
+        return "chain%d" % (len(spec) - 2)          # number of earlier conversions; the replay file has the systems
+    if spec[0] == "name":
+        t = spec[1].strip().lower()
+        shape = ("hex" if t.startswith("#") else "rgb()" if t.startswith("rgb") else "color()" if t.startswith("color(")
+                 else "default" if t == "default" else "named")
+        return "parse-" + shape + ("" if t == spec[1] else "-variant")
+    return spec[0]
 
 
 def try_source(spec):
@@ -109,19 +168,113 @@ def make_source(spec):
         return Color.from_ansi(spec[1])
     if spec[0] == "name":
         return Color.parse(spec[1])
+    if spec[0] == "trip":
+        from rich.color_triplet import ColorTriplet
+        return Color.from_triplet(ColorTriplet(spec[1], spec[2], spec[3]))
+    if spec[0] == "raw":
+        from rich.color import ColorType
+        from rich.color_triplet import ColorTriplet
+        name = "raw-%s" % "-".join(str(x) for x in spec[1:])
+        if spec[1] == "TRUECOLOR":
+            return Color(name, ColorType.TRUECOLOR, triplet=ColorTriplet(spec[2], spec[3], spec[4]))
+        if spec[1] == "DEFAULT":
+            return Color(name, ColorType.DEFAULT)
+        return Color(name, getattr(ColorType, spec[1]), number=spec[2])
+    if spec[0] == "chain":
+        # history: the base colour is asked for every system first, then converted to s1 (s2, ...); the
+        # result - a colour that is already downgraded - is the source of this point
+        from rich.color import ColorSystem
+        systems = dict((name, getattr(ColorSystem, attr)) for name, attr in SYSTEMS)
+        c = make_source(spec[1])
+        for name, _ in SYSTEMS:
+            c.downgrade(systems[name])
+        for name in spec[2:]:
+            c = c.downgrade(systems[name])
+        return c
     return Color.default()
 
 
-def observe(points):
-    """points: list of real Color objects.  Returns the record body (tab, cols, sf, sb, n)."""
+def ansi_codes(c, foreground, form):
+    """get_ansi_codes in one of its call forms (2 = the way rich/style.py calls it)."""
+    if form == 1:
+        return c.get_ansi_codes(foreground)
+    if form == 2 and foreground:
+        return c.get_ansi_codes()
+    return c.get_ansi_codes(foreground=foreground)
+
+
+# terminal themes given to get_truecolor: 1 = None (the default theme), 2 = DEFAULT_TERMINAL_THEME itself,
+# 3 = a theme with bright colours, 4 = a theme without (bright = normal).  The constructor arguments of 3 / 4
+# are the driver's own data; TLC gets them as given (ansi = normal + (bright or normal), terminal_theme.py).
+T3 = dict(background=(10, 20, 30), foreground=(200, 210, 220),
+          normal=[(k * 10 + 1, k * 20 + 2, k * 30 + 3) for k in range(8)],
+          bright=[(255 - k * 10, 254 - k * 20, 253 - k * 30) for k in range(8)])
+T4 = dict(background=(250, 240, 230), foreground=(1, 2, 3), normal=[(k * 31, 255 - k * 17, (k * 57) % 256) for k in range(8)], bright=None)
+_THEMES = []
+
+
+def theme_objects():
+    if not _THEMES:
+        from rich.terminal_theme import DEFAULT_TERMINAL_THEME, TerminalTheme
+        _THEMES.extend([None, DEFAULT_TERMINAL_THEME,
+                        TerminalTheme(T3["background"], T3["foreground"], list(T3["normal"]), list(T3["bright"])),
+                        TerminalTheme(T4["background"], T4["foreground"], list(T4["normal"]))])
+    return _THEMES
+
+
+def theme_data():
+    from rich.terminal_theme import DEFAULT_TERMINAL_THEME as D
+    dflt = dict(fg=[int(x) for x in D.foreground_color], bg=[int(x) for x in D.background_color],
+                ansi=[[int(x) for x in col] for col in D.ansi_colors._colors])
+    out = [dflt, dflt]
+    for t in (T3, T4):
+        out.append(dict(fg=list(t["foreground"]), bg=list(t["background"]),
+                        ansi=[list(c) for c in t["normal"] + (t["bright"] or t["normal"])]))
+    return out
+
+
+SYSNAME = {"STANDARD": "standard", "EIGHT_BIT": "eight", "TRUECOLOR": "truecolor", "WINDOWS": "windows"}
+
+
+def _flag(v):
+    return 1 if v is True else 0 if v is False else BAD
+
+
+def observe_props(i, c):
+    """the read-only accessors of one source colour (implementation-shaped part only: DRIFT)."""
+    try:
+        if isinstance(c, Exception):
+            raise c
+        tcs = []
+        for th in theme_objects():
+            for fgflag in (True, False):
+                t = c.get_truecolor(th, fgflag) if th is not None else c.get_truecolor(foreground=fgflag)
+                tcs.append([_int(x) for x in t] if isinstance(t, tuple) and len(t) == 3 else [BAD, BAD, BAD])
+        return dict(i=i, exc="", sys=SYSNAME.get(getattr(c.system, "name", ""), "unknown"),
+                    isdef=_flag(c.is_default), sysdef=_flag(c.is_system_defined), tc=tcs)
+    except Exception as ex:
+        return dict(i=i, exc=type(ex).__name__[:16], sys="", isdef=BAD, sysdef=BAD, tc=[])
+
+
+def observe(points, orders, forms, props=()):
+    """points: list of real Color objects; orders[i]: index into PERMS (order in which the targets are asked);
+    forms[i]: call form of get_ansi_codes; props: indices of the points whose accessors are observed too.
+    Returns the record body (tab, cols, sf, sb, n, props)."""
     from rich.color import ColorSystem
     systems = [(name, getattr(ColorSystem, attr)) for name, attr in SYSTEMS]
     tab, tablist = {}, []
     cols = {name: [] for name, _ in SYSTEMS}
     sf = [[], [], [], [], []]
     sb = [[], [], [], [], []]
-    for c in points:
-        for name, system in systems:
+    props = set(props)
+    pobs = []
+    for i, c in enumerate(points):
+        form = forms[i]
+        if i in props and orders[i] % 2 == 0:       # accessors before ...
+            pobs.append(observe_props(i, c))
+        got = {}
+        for k in PERMS[orders[i]]:
+            name, system = systems[k]
             try:
                 if isinstance(c, Exception):
                     raise c
@@ -132,26 +285,30 @@ def observe(points):
                 if same:
                     fg = bg = ()
                 else:
-                    fg = tuple(r1.get_ansi_codes(foreground=True))
-                    bg = tuple(r1.get_ansi_codes(foreground=False))
+                    fg = tuple(ansi_codes(r1, True, form))
+                    bg = tuple(ansi_codes(r1, False, form))
                 key = (same, None if same else colour_key(r1), same2, None if same2 else colour_key(r2), fg, bg)
                 hash(key)
             except Exception as ex:  # a crash inside Rich is an observation
-                key = ("exc", ("ctor-" if ex is c else "") + type(ex).__name__[:18])
+                key = ("exc", ("ctor-" if ex is c else "") + type(ex).__name__[:16])
             idx = tab.get(key)
             if idx is None:
                 idx = tab[key] = len(tablist) + 1
                 tablist.append(key)
-            cols[name].append(idx)
+            got[name] = idx
+        for name, _ in systems:
+            cols[name].append(got[name])
         for fgflag, dest in ((True, sf), (False, sb)):
             try:
                 if isinstance(c, Exception):
                     raise c
-                codes = proj_codes(c.get_ansi_codes(foreground=fgflag))[:5]
+                codes = proj_codes(ansi_codes(c, fgflag, form))[:5]
             except Exception:
                 codes = [BAD]
             for p in range(5):
                 dest[p].append(codes[p] if p < len(codes) else ABSENT)
+        if i in props and orders[i] % 2 == 1:       # ... or after the conversions
+            pobs.append(observe_props(i, c))
     entries = []
     for key in tablist:
         if key[0] == "exc":
@@ -162,25 +319,40 @@ def observe(points):
                                 same2=same2, c2=DUMMY if same2 else proj_colour(k2),
                                 fg=proj_codes(fg), bg=proj_codes(bg)))
     return dict(n=len(points), tab=entries, cols={k: runs(v) for k, v in cols.items()},
-                sf=[runs(v) for v in sf], sb=[runs(v) for v in sb])
+                sf=[runs(v) for v in sf], sb=[runs(v) for v in sb], props=pobs)
 
 
 ALLSYS = [name for name, _ in SYSTEMS]
 
 
-def list_record(specs):
+def wants_props(it):
+    """which points also have their accessors observed (a coverage choice): every source that is not a plain
+    from_rgb colour, and one in six of those."""
+    spec, order, form = it
+    return spec[0] != "rgb" or (form == 0 and order % 2 == 0)
+
+
+def list_record(items, hist=False):
+    """items: [spec, order, form]; `hist`: the points of this record are a history (repeated colours) - a
+    replay of one of them re-runs the points before it as well."""
+    items = [entuple(it) for it in items]
+    specs = [it[0] for it in items]
     pts = [try_source(s) for s in specs]
-    rec = observe(pts)
+    rec = observe(pts, [it[1] for it in items], [it[2] for it in items],
+                  [i for i, it in enumerate(items) if wants_props(it)])
     rec["ref"] = ALLSYS
     rec["row"] = []
     rec["pts"] = [intended(s) if isinstance(c, Exception) else proj_colour(colour_key(c)) for s, c in zip(specs, pts)]
+    rec["items"] = detuple(items)        # driver-side only (replay payloads, signatures); TLC never reads it
+    rec["hist"] = bool(hist)
     return rec
 
 
 def row_record(R, G):
     specs = [("rgb", R, G, b) for b in range(256)]
     pts = [try_source(s) for s in specs]
-    rec = observe(pts)
+    plans = [plan(s) for s in specs]
+    rec = observe(pts, [p[0] for p in plans], [p[1] for p in plans])
     # transcription comparison (DRIFT channel): 256 / truecolor targets on every row, the two 16-colour
     # searches (first-minimum tie-break) on one row in eight, staggered so every red and green value occurs
     rec["ref"] = ALLSYS if (R + G) % 8 == 0 else ["eight", "truecolor"]
@@ -193,8 +365,8 @@ def row_record(R, G):
     return rec
 
 
-def _w_list(specs):
-    return list_record(specs)
+def _w_list(arg):
+    return list_record(arg[1], hist=arg[0])
 
 
 def _w_red(R):
@@ -242,7 +414,163 @@ def quick_points(chk, pal):
     strata["indexed+default"] = [("idx", n) for n in range(256)] + [("default",)] + \
         [("name", "color(%d)" % n) for n in (0, 7, 8, 15, 16, 231, 232, 255)] + \
         [("name", s) for s in ("default", "red", "bright_white", "grey0", "grey93", "#000000", "#ffffff", "rgb(1,2,3)")]
+    # ---- audit 2 ----
+    # the 6x6x6 cube: channel values on both sides of every rounding boundary of round(x / 255 * 5)
+    cb = [0, 25, 26, 76, 77, 127, 128, 178, 179, 229, 230, 255]
+    strata["cube-boundaries"] = [("rgb", r, g, b) for r in cb for g in cb for b in cb]
+    # near-greys: low saturation colours one to three steps off the grey axis, every level
+    offs = [(1, 0, 0), (0, 1, 0), (0, 0, 1), (1, 1, 0), (0, 2, 1), (2, 0, 1), (1, 3, 0), (3, 1, 2), (0, 3, 3), (2, 2, 0)]
+    strata["near-grey"] = sorted({("rgb", v + a, v + b, v + c) for v in range(256) for (a, b, c) in offs
+                                  if max(v + a, v + b, v + c) <= 255})
+    strata["voronoi"] = voronoi_points(rng, pal)
+    strata["near-ties"] = near_tie_points(strata["voronoi"], pal)
+    strata["parse-forms"] = parse_forms(rng, pal)
+    strata["routes"] = route_points(rng, pal)
     return strata
+
+
+# The generator steers points towards the decision boundaries of the two 16-colour searches with its own copy
+# of the metric.  This only CHOOSES inputs; what is right there is decided by TLC from Color.tla.
+def _d2(c, p):
+    rm = (c[0] + p[0]) // 2
+    dr, dg, db = c[0] - p[0], c[1] - p[1], c[2] - p[2]
+    return (((512 + rm) * dr * dr) >> 8) + 4 * dg * dg + (((767 - rm) * db * db) >> 8)
+
+
+def _near(pal16, c):
+    return min(range(len(pal16)), key=lambda k: _d2(c, pal16[k]))
+
+
+def voronoi_points(rng, pal):
+    out = set()
+
+    def add(p, halo):
+        out.add(("rgb",) + tuple(p))
+        if halo:
+            for ax in range(3):
+                for d in (-1, 1):
+                    q = list(p)
+                    q[ax] += d
+                    if 0 <= q[ax] <= 255:
+                        out.add(("rgb",) + tuple(q))
+
+    for key in ("std", "win"):
+        P = pal[key]
+        # along the segment between every two entries: the places where the nearest entry changes
+        for i in range(len(P)):
+            for j in range(i + 1, len(P)):
+                prev, prevn = None, None
+                for t in range(97):
+                    p = tuple((P[i][k] * (96 - t) + P[j][k] * t + 48) // 96 for k in range(3))
+                    n = _near(P, p)
+                    if prev is not None and n != prevn:
+                        add(prev, True)
+                        add(p, True)
+                    prev, prevn = p, n
+        # bisection between random colours with different nearest entries, down to adjacent colours
+        for _ in range(1500):
+            a = tuple(rng.randrange(256) for _ in range(3))
+            b = tuple(rng.randrange(256) for _ in range(3))
+            na, nb = _near(P, a), _near(P, b)
+            if na == nb:
+                continue
+            while max(abs(a[k] - b[k]) for k in range(3)) > 1:
+                m = tuple((a[k] + b[k]) // 2 for k in range(3))
+                if _near(P, m) == na:
+                    a = m
+                else:
+                    b, nb = m, _near(P, m)
+            add(a, False)
+            add(b, False)
+    return sorted(out)
+
+
+def near_tie_points(boundary, pal):
+    """colours at which the two best entries of a 16-colour palette are (almost) equally far: in the +-2 box around
+    every boundary colour, those where the two distances differ by at most 1 (a one-unit change of the metric -
+    a floor turned into a ceiling, two shifts folded into one - shows only there)."""
+    out = set()
+    for key in ("std", "win"):
+        P = pal[key]
+        for spec in boundary:
+            a = spec[1:]
+            ds = sorted((_d2(a, P[k]), k) for k in range(len(P)))
+            if ds[1][0] - ds[0][0] > 600:
+                continue
+            pa, pb = P[ds[0][1]], P[ds[1][1]]
+            for dx in range(-2, 3):
+                for dy in range(-2, 3):
+                    for dz in range(-2, 3):
+                        q = (a[0] + dx, a[1] + dy, a[2] + dz)
+                        if min(q) >= 0 and max(q) <= 255 and abs(_d2(q, pa) - _d2(q, pb)) <= 1:
+                            out.add(("rgb",) + q)
+    return sorted(out)
+
+
+def parse_forms(rng, pal):
+    """Color.parse as the source of colours: every name of the table of the tree under test, every color(n),
+    #rrggbb and rgb(r,g,b) for palette entries / boundary / random colours, default; upper / mixed case and
+    surrounding white space (parse lower-cases and strips)."""
+    from rich.color import ANSI_COLOR_NAMES
+    names = sorted(ANSI_COLOR_NAMES)
+    out = [("name", n) for n in names]
+    out += [("name", "color(%d)" % n) for n in range(256)]
+    trip = [tuple(c) for c in pal["std"] + pal["win"]] + [tuple(pal["eight"][n]) for n in range(16, 256, 7)]
+    trip += [(v, v, v) for v in (0, 1, 7, 8, 127, 128, 246, 250, 254, 255)]
+    trip += [tuple(rng.randrange(256) for _ in range(3)) for _ in range(300)]
+    for (r, g, b) in trip:
+        out.append(("name", "#%02x%02x%02x" % (r, g, b)))
+        out.append(("name", "rgb(%d,%d,%d)" % (r, g, b)))
+    var = []
+    for n in names[::5] + ["default", "red", "bright_white", "grey0", "grey100"]:
+        var += [n.upper(), n.title(), " " + n, n + " ", "\t" + n.upper() + "\n"]
+    for n in (0, 7, 8, 15, 16, 17, 231, 232, 255):
+        var += ["COLOR(%d)" % n, " Color(%d) " % n]
+    for (r, g, b) in trip[::9]:
+        var += ["#%02X%02X%02X" % (r, g, b), " #%02x%02X%02x\n" % (r, g, b), "RGB(%d,%d,%d)" % (r, g, b),
+                "rgb(%d, %d, %d)" % (r, g, b), " Rgb( %d ,%d , %d ) " % (r, g, b)]
+    out += [("name", v) for v in var]
+    return out
+
+
+def route_points(rng, pal):
+    """construction routes other than from_rgb / from_ansi / parse, colours that are already downgraded
+    (chains: every ordered pair and some triples of systems), and repeated colours."""
+    out = []
+    # Color tuples built directly: legacy-Windows typed, 8-bit typed below 16, and the ordinary kinds
+    out += [("raw", "WINDOWS", n) for n in range(16)] + [("raw", "EIGHT_BIT", n) for n in range(16)]
+    out += [("raw", "STANDARD", n) for n in range(16)] + [("raw", "EIGHT_BIT", n) for n in range(16, 256, 5)] + [("raw", "DEFAULT")]
+    out += [("raw", "TRUECOLOR") + tuple(c) for c in pal["win"] + pal["std"]]
+    some = [tuple(rng.randrange(256) for _ in range(3)) for _ in range(400)] + [tuple(c) for c in pal["win"] + pal["std"]] + \
+        [(v, v, v) for v in range(0, 256, 5)]
+    out += [("trip",) + c for c in some]
+    sysn = [name for name, _ in SYSTEMS]
+    bases = [("idx", n) for n in range(256)] + [("default",), ("name", "default"), ("name", "bright_red"), ("name", "grey50")] + \
+        [("rgb",) + c for c in some] + [("raw", "WINDOWS", n) for n in range(16)] + [("raw", "EIGHT_BIT", n) for n in range(16)]
+    for b in bases:
+        out += [("chain", b, s1) for s1 in sysn]
+    for b in bases[::4]:
+        out += [("chain", b, s1, s2) for s1 in sysn for s2 in sysn if s1 != s2]
+    return out
+
+
+def repeat_items(rng, pal):
+    """histories: the same colour (an equal Color tuple, built anew) asked again later in the same process, the
+    targets in another order each time; one record = one history."""
+    base = [("rgb",) + tuple(rng.randrange(256) for _ in range(3)) for _ in range(120)] + \
+        [("idx", n) for n in range(0, 256, 3)] + [("default",)] + [("raw", "WINDOWS", n) for n in range(0, 16, 3)] + \
+        [("name", "#%02x%02x%02x" % tuple(c)) for c in pal["win"]]
+    rng.shuffle(base)
+    out = []
+    for i in range(0, len(base), 80):           # every record holds all three askings of its colours
+        hist = []
+        for rnd in range(3):
+            for k, b in enumerate(base[i:i + 80]):
+                o, f = plan(b)
+                hist.append((b, (o + 7 * rnd + (k % 5) * rnd) % 24, (f + rnd) % 3))
+        rng.shuffle(hist)
+        out.append(detuple(hist))
+    return out
 
 
 def child_cpu():
@@ -265,41 +593,48 @@ class Counted:
 
 
 _COL = r"rgb\(\d+,\d+,\d+\)|default|standard\(-?\d+\)|eight\(-?\d+\)|windows\(-?\d+\)"
-_VERD = re.compile(r"^(?P<col>%s)>(?P<sys>[\w-]+):(?P<clause>[\w-]+)$" % _COL)
-_DRIFT = re.compile(r"^drift:(?P<col>%s)>(?P<sys>\w+)=(?P<got>%s)$" % (_COL, _COL))
+_KINDS = r"rgb|default|standard|eight|windows|unknown-type"
+_COLX = r"rgb\(-?\d+,-?\d+,-?\d+\)|default|[\w-]+\(-?\d+\)"       # also malformed colours
+_VERD = re.compile(r"^(?P<col>%s)#(?P<i>\d+)>(?P<sys>[\w-]+):(?P<clause>[\w-]+)$" % _COLX)
+_DRIFT = re.compile(r"^drift:(?P<col>%s)#(?P<i>\d+)>(?P<sys>\w+)=(?P<got>%s)$" % (_COLX, _COLX))
+_PDRIFT = re.compile(r"^drift:(?P<col>%s)#(?P<i>\d+)>props:(?P<what>[\w-]+)$" % _COLX)
 
 
-def spec_of(colstr):
-    m = re.match(r"rgb\((\d+),(\d+),(\d+)\)", colstr)
-    if m:
-        return ["rgb", int(m.group(1)), int(m.group(2)), int(m.group(3))]
-    m = re.match(r"(standard|eight)\((-?\d+)\)", colstr)
-    if m:
-        return ["idx", int(m.group(2))]
-    return ["default"]
+def items_of(rec, i):
+    """the replayable points behind point i of a record: the item itself (slice records: rebuilt from the row),
+    preceded by the earlier points of the record when the record is a history."""
+    if rec["row"]:
+        return [detuple(item(("rgb", rec["row"][0], rec["row"][1], i)))]
+    return rec["items"][:i + 1] if rec.get("hist") else [rec["items"][i]]
 
 
-def describe(src):
-    """what the real code returned for one source (for the human-readable detail of a rejection)."""
+def describe(it):
+    """what the real code returned for one point (for the human-readable detail of a rejection)."""
     from rich.color import ColorSystem
     out = {}
+    spec, order, form = entuple(it)
     try:
-        c = make_source(tuple(src))
+        c = make_source(spec)
         out["source"] = repr(c)
-        for name, attr in SYSTEMS:
+        out["asked_in_order"] = [SYSTEMS[k][0] for k in PERMS[order]]
+        out["get_ansi_codes_form"] = ["keyword", "positional", "as rich.style calls it"][form]
+        for k in PERMS[order]:
+            name, attr = SYSTEMS[k]
             try:
                 r1 = c.downgrade(getattr(ColorSystem, attr))
                 out[name] = dict(first=repr(r1), second=repr(r1.downgrade(getattr(ColorSystem, attr))),
-                                 fg=list(r1.get_ansi_codes(foreground=True)), bg=list(r1.get_ansi_codes(foreground=False)))
+                                 fg=list(ansi_codes(r1, True, form)), bg=list(ansi_codes(r1, False, form)))
             except Exception as ex:
                 out[name] = "raised " + type(ex).__name__
+        out["source_codes"] = dict(fg=list(ansi_codes(c, True, form)), bg=list(ansi_codes(c, False, form)))
     except Exception as ex:
-        out["source"] = "raised " + type(ex).__name__
+        out["source"] = out.get("source", "") + " raised " + type(ex).__name__
     return out
 
 
 def judge(chk, recs, pal, label):
-    verdicts, st = tlc.judge("Trace_Color", recs, extra_json=pal, chunk_min=8, timeout=7200)
+    wire = [{k: v for k, v in rec.items() if k not in ("items", "hist")} for rec in recs]     # driver-side fields stay here
+    verdicts, st = tlc.judge("Trace_Color", wire, extra_json=pal, chunk_min=8, timeout=7200)
     chk.add_tlc(st, label)
     nbad = 0
     for rec, v in zip(recs, verdicts):
@@ -309,24 +644,38 @@ def judge(chk, recs, pal, label):
             raise tlc.TLCFailure("Trace_Color gave %r for a record (row=%s n=%s)" % (v, rec["row"], rec["n"]))
         m = _DRIFT.match(v)
         if m:
+            its = items_of(rec, int(m.group("i")))
             chk.drift_note("Color.downgrade differs from the transcription RefDowngradeSet (all property clauses hold): "
-                           "%s -> %s gave %s" % (m.group("col"), m.group("sys"), m.group("got")))
+                           "%s [%s] -> %s gave %s" % (m.group("col"), route(entuple(its[-1][0])), m.group("sys"), m.group("got")))
+            continue
+        m = _PDRIFT.match(v)
+        if m:
+            its = items_of(rec, int(m.group("i")))
+            chk.drift_note("a read-only accessor of Color differs from its transcription in Color.tla (the statement does not "
+                           "speak about system / is_default / is_system_defined / get_truecolor): %s [%s] %s"
+                           % (m.group("col"), route(entuple(its[-1][0])), m.group("what")))
             continue
         m = _VERD.match(v)
         if not m:
             raise tlc.TLCFailure("unparsable verdict %r" % v)
-        src = spec_of(m.group("col"))
+        its = items_of(rec, int(m.group("i")))
         kind = m.group("col").split("(")[0]
+        rt = route(entuple(its[-1][0]))
         sig = "%s sys=%s src=%s" % (m.group("clause"), m.group("sys"), kind)
+        if rt not in ("rgb", "idx", "default"):
+            sig += " route=" + rt
+        if rec.get("hist"):
+            sig += " repeated"
         nbad += 1
         if len(chk.violations) < 2000:
-            chk.reject(sig, dict(verdict=v, observed=describe(src)), dict(points=[src]))
+            chk.reject(sig, dict(verdict=v, observed=describe(its[-1])), dict(points=its, hist=bool(rec.get("hist"))))
     return st, nbad
 
 
 def run(chk: Check):
     pal = palettes()
     digest = hashlib.sha1(json.dumps(pal, sort_keys=True).encode()).hexdigest()
+    jpal = dict(pal, themes=theme_data())       # what TLC gets besides the records
     chk.notes["palettes_sha1"] = digest
     if digest != PINNED_PALETTES:
         chk.drift_note("rich/_palettes.py differs from the pinned 9.10.0 palettes (sha1 %s); the property is judged on the palettes of the tree under test" % digest)
@@ -338,24 +687,30 @@ def run(chk: Check):
     chk.trusted = ["drivers/c18.py:colour_key/proj_colour (Color -> kind/number/r,g,b; None -> -1)",
                    "drivers/c18.py:proj_codes (decimal strings -> ints)",
                    "drivers/c18.py:observe/runs (dictionary + delta-run grouping of equal observations; `is` identity test)",
-                   "drivers/c18.py:palettes (reads rich/_palettes.py of the tree under test)"]
-    chk.assumptions = ["source colours are built with Color.from_rgb / from_ansi / parse / default (numbers < 16 are STANDARD type); "
-                       "windows-typed colours occur only as results",
-                       "the metric is the integer radicand of palette.py (floor shifts included); sqrt only orders it"]
+                   "drivers/c18.py:palettes / theme_data (read rich/_palettes.py and DEFAULT_TERMINAL_THEME of the tree under test)",
+                   "drivers/c18.py:observe_props (accessors -> names / 0,1 / triplets; DRIFT channel only)"]
+    chk.assumptions = ["source colours are built with Color.from_rgb / from_triplet / from_ansi / parse / default, as Color tuples "
+                       "built directly (windows typed, 8-bit typed below 16) and as results of earlier conversions; for a "
+                       "windows typed source converted to standard / 256 and an 8-bit typed source below 16 converted to a "
+                       "16-colour system the statement fixes the gamut, idempotence and the SGR parameters only",
+                       "the metric is the integer radicand of palette.py (floor shifts included); sqrt only orders it",
+                       "a call of get_ansi_codes() without argument asks for the foreground (the documented default)"]
     ctx = multiprocessing.get_context("fork")
 
     if chk.replay_only:
-        specs = [tuple(s) for s in chk.replay_only["case"]["points"]]
-        recs = [list_record(specs)]
+        pts = [entuple(s) for s in chk.replay_only["case"]["points"]]
+        # a point is [spec, order, form]; a bare spec (replay files written before audit 2) gets its default plan
+        items = [p if len(p) == 3 and isinstance(p[0], tuple) else item(p) for p in pts]
+        recs = [list_record(items, hist=bool(chk.replay_only["case"].get("hist")))]
         account(chk, recs)
-        judge(chk, recs, pal, "M4-replay")
+        judge(chk, recs, jpal, "M4-replay")
         return
 
     # ---- M1: the transcription satisfies the relation on a lattice ----------------------------
     os.makedirs(os.path.join(tlc.VERIF, ".work"), exist_ok=True)
     ppath = os.path.join(tlc.VERIF, ".work", "c18-palettes-%d.json" % os.getpid())
     with open(ppath, "w") as f:
-        json.dump(dict(pal, recs=[]), f)
+        json.dump(dict(jpal, recs=[]), f)
     try:
         acts = ["Keep", "Grey", "Cube", "Tie", "MatchStd", "MatchWin", "WinIndex"]
         r, cov, missing = tlc.model_check("MC_Color", env={"TRACE_FILE": ppath}, require_actions=acts)
@@ -377,21 +732,29 @@ def run(chk: Check):
                 specs.append(s)
     chk.notes["strata"] = {k: len(v) for k, v in strata.items()}
     chk.notes["quick_points_distinct"] = len(specs)
-    specs.sort(key=lambda t: (t[0],) + tuple(t[1:]))      # neighbours become adjacent: longer runs, smaller batches
-    groups = [specs[i:i + 512] for i in range(0, len(specs), 512)]
+    # neighbours become adjacent: longer runs, smaller batches
+    specs.sort(key=lambda t: (t[0], [x if isinstance(x, int) else -1 for x in t[1:]], repr(t)))
+    groups = [(False, [detuple(item(s)) for s in specs[i:i + 512]]) for i in range(0, len(specs), 512)]
+    hists = repeat_items(chk.rng, pal)
+    chk.notes["repeat_histories"] = dict(records=len(hists), points=sum(len(h) for h in hists))
+    groups += [(True, h) for h in hists]
     t0 = time.time()
     with ctx.Pool(min(16, os.cpu_count() or 4)) as pool:
         recs = pool.map(_w_list, groups, chunksize=1)
     chk.notes["quick_python_s"] = round(time.time() - t0, 1)
     account(chk, recs)
-    st, nbad = judge(chk, recs, pal, "M4-strata")
+    st, nbad = judge(chk, recs, jpal, "M4-strata")
     chk.notes["quick_tlc_s"] = round(st["wall"], 1)
-    for sp in (("rgb", 132, 115, 140), ("rgb", 255, 85, 86), ("idx", 9), ("idx", 202), ("default",)):
-        chk.sample(dict(input=list(sp), real_calls=describe(sp)))
+    for sp in (("rgb", 132, 115, 140), ("rgb", 255, 85, 86), ("idx", 9), ("idx", 202), ("default",), ("raw", "WINDOWS", 11),
+               ("chain", ("rgb", 200, 30, 90), "eight", "windows"), ("name", " Grey93\n")):
+        chk.sample(dict(input=detuple(sp), real_calls=describe(item(sp))))
     chk.sample(dict(slice_record_as_sent_to_TLC="row rgb(16,32,0..255)", record=compact(row_record(16, 32))))
     if not chk.thorough:
         chk.notes["bounds"] = ("quick: %d distinct source colours (17^3 lattice, +-2 around every palette entry, grey axis, "
-                               "saturation-threshold surface, 20000 random, 256 indexed, default, named) x 4 targets x fg/bg" % len(specs))
+                               "saturation-threshold surface, 6x6x6 cube rounding boundaries, near-greys, decision boundaries of both 16-colour "
+                               "searches, 20000 random, 256 indexed, default, every Color.parse form incl. all names, directly built "
+                               "windows / 8-bit<16 typed tuples, already downgraded colours (chains over every pair of systems), repeated "
+                               "colours) x 4 targets asked in varying order x fg/bg in three call forms" % len(specs))
         return
     if nbad:
         chk.notes["bounds"] = "thorough sweep skipped: the quick strata already produced rejections"
@@ -409,7 +772,7 @@ def run(chk: Check):
         cp += child_cpu() - c0
         account(chk, recs, bulk=True)
         c0 = child_cpu()
-        st, nbad = judge(chk, recs, pal, "M4-cube")
+        st, nbad = judge(chk, recs, jpal, "M4-cube")
         tt += st["wall"]
         ct += child_cpu() - c0
         rows += len(recs)
@@ -447,4 +810,4 @@ def account(chk, recs, bulk=False):
 
 
 def compact(rec):
-    return dict(row=rec["row"], n=rec["n"], tab=rec["tab"][:4], cols=rec["cols"], sf=rec["sf"])
+    return dict(row=rec["row"], n=rec["n"], tab=rec["tab"][:4], cols=rec["cols"], sf=rec["sf"], props=rec["props"][:2])
